@@ -25,6 +25,7 @@ open Mutagen.Driver Mutagen.Driver.Tree Mutagen.Model.Store
 def showErr : Err → String
   | .ok => "ok" | .uninitialized => "uninit" | .digestEmpty => "digest-empty" | .root => "root" | .alloc => "alloc"
   | .size => "size" | .prefixDir => "prefix" | .rename => "rename" | .unknownStorage => "unknown-storage"
+  | .tempGone => "temp-gone"
 
 def parseHashTable (s : String) : Option (List (Bytes × Bytes)) := Mutagen.Driver.TransFS.parseHash s
 
